@@ -4,4 +4,10 @@ from . import apply_bounded, kernels
 
 def jobs(tier="quick", seed=0):
     yield from kernels.jobs_for("C01", tier, seed)
+    # "every patch appears exactly once, in registration order when several target the same offset"
+    from . import c07
+    for j in c07.jobs(tier, seed):
+        if j.id in ("C07/resolve_offsets", "C07/store", "C07/apply-bounded"):
+            j.id = "C01/" + j.id
+            yield j
     yield apply_bounded.job("C01", tier, seed)
